@@ -172,6 +172,16 @@ func safeFile(name string) string {
 
 // Discharge runs the solver race on one obligation.
 func Discharge(o *Obligation, timeoutMs int, all bool) *Result {
+	if o.Trivial {
+		be := "simplifier"
+		if o.Kind == "synt" {
+			be = "ssa-scan"
+		}
+		return &Result{Obl: o, Status: "unsat", Solver: be, Tried: []string{be + ":holds"}}
+	}
+	if o.Kind == "synt" {
+		return &Result{Obl: o, Status: "sat", Solver: "ssa-scan", Tried: []string{"ssa-scan:violated"}, Output: o.Raw}
+	}
 	dir := filepath.Join(OutDir, "q")
 	os.MkdirAll(dir, 0o755)
 	file := filepath.Join(dir, safeFile(o.Name)+".smt2")
